@@ -1419,6 +1419,7 @@ fn parked_history(cs: &mut Cs, it: &mut Interp, st: &mut Stats) -> R {
     let mut fs: Vec<F> = vec![];
     let mut steps = 0usize;
     let mut parks = 0usize;
+    let mut rejected = 0usize;
     let mut resumed_nonlast = 0usize;
     loop {
         steps += 1;
@@ -1452,6 +1453,18 @@ fn parked_history(cs: &mut Cs, it: &mut Interp, st: &mut Stats) -> R {
                         _ => pick(cs, &p.module_level),
                     };
                     it.call(cs, mm)?;
+                }
+                // calls that are REJECTED (nothing selected): a complete history may contain
+                // them; they must leave the ids and the module alone
+                if it.selection().0.is_none() && cs.below(8) == 0 {
+                    let mm = match cs.below(4) {
+                        0 => pick(cs, &p.term),
+                        1 => method("end_function"),
+                        2 => method("function_parameter"),
+                        _ => pick(cs, &p.block),
+                    };
+                    it.call(cs, mm)?;
+                    rejected += 1;
                 }
             }
             Some(f) => {
@@ -1509,6 +1522,7 @@ fn parked_history(cs: &mut Cs, it: &mut Interp, st: &mut Stats) -> R {
         }
     }
     st.add("parks", parks as u64);
+    st.add("rejected_calls_in_parked_histories", rejected as u64);
     if resumed_nonlast > 0 {
         st.count("resumed_a_function_that_is_not_the_last");
     }
@@ -1703,6 +1717,11 @@ fn sub_c16_builder(input: &[u8], st: &mut Stats) -> R {
         .iter()
         .filter(|m| matches!(m.kind, MKind::BlockInst | MKind::BlockInsert | MKind::Terminator | MKind::TerminatorInsert))
         .collect();
+    // history of the Builder before the call: 0 = fresh; 1 = a terminator and a block
+    // instruction were REJECTED first (no block open); 2 = an earlier complete function exists
+    let total = ms.len() * 6;
+    let hist = i / total;
+    let i = i % total;
     let variant = i % 6;
     let Some(mm) = ms.get(i / 6).copied() else { return Ok(()) };
     let has_ip = mm.mi.params.first().map(|p| p.1) == Some("InsertPoint");
@@ -1713,11 +1732,41 @@ fn sub_c16_builder(input: &[u8], st: &mut Stats) -> R {
     let mut cs = Cs::new(&stream);
     let mut b = Builder::new();
     let ids: Vec<u32> = (0..6).map(|_| b.id()).collect();
+    match hist {
+        1 => {
+            // rejected calls (nothing selected), also between function and block
+            let _ = no_panic("Builder::ret", || b.ret())?;
+            let _ = no_panic("Builder::nop", || b.nop())?;
+            let _ = no_panic("Builder::branch", || b.branch(ids[2]))?;
+            let _ = no_panic("Builder::end_function", || b.end_function())?;
+        }
+        2 => {
+            let f = |e: rspirv::dr::Error| Fail::new("harness", "history", format!("{:?}", e));
+            b.begin_function(ids[0], None, spirv::FunctionControl::NONE, ids[1]).map_err(f)?;
+            b.begin_block(None).map_err(f)?;
+            b.nop().map_err(f)?;
+            b.ret().map_err(f)?;
+            b.end_function().map_err(f)?;
+        }
+        _ => {}
+    }
     b.begin_function(ids[0], None, spirv::FunctionControl::NONE, ids[1]).map_err(|e| Fail::new("harness", "begin_function", format!("{:?}", e)))?;
+    if hist == 1 {
+        let _ = no_panic("Builder::kill", || {
+            let _ = b.kill();
+        })?;
+    }
     b.begin_block(None).map_err(|e| Fail::new("harness", "begin_block", format!("{:?}", e)))?;
     // two instructions already in the block so that every insert point is meaningful
     let _ = b.nop();
     let _ = b.nop();
+    if b.selected_block().is_none() {
+        return Err(Fail::new(
+            "builder-ends-block-iff-terminator",
+            "Nop:closed",
+            format!("Builder::nop ended the block (history variant {}) but is_block_terminator(OpNop) = false", hist),
+        ));
+    }
     let env = Env {
         ids,
         block_len: Some(2),
@@ -1761,7 +1810,7 @@ fn sub_c16_builder(input: &[u8], st: &mut Stats) -> R {
             ),
         ));
     }
-    st.nontrivial(hash_str(&format!("{}#{}", mm.mi.name, variant)));
+    st.nontrivial(hash_str(&format!("{}#{}#{}", mm.mi.name, variant, hist)));
     if closed {
         st.set_insert("block_ending_methods", mm.mi.name);
     }
@@ -1775,7 +1824,7 @@ pub fn c16_run(ctx: &Ctx) {
         .iter()
         .filter(|m| matches!(m.kind, MKind::BlockInst | MKind::BlockInsert | MKind::Terminator | MKind::TerminatorInsert))
         .count();
-    drive_enum(ctx, &C16_SUBS[0], n as u64 * 6);
+    drive_enum(ctx, &C16_SUBS[0], n as u64 * 6 * 3);
 }
 
 #[allow(dead_code)]
